@@ -11,7 +11,15 @@ Oracles at quiescence afterwards
   tables    host / device / controller agree on live connections (transport loss: host and
             device of the cut side are both empty)
   leftover  no per-connection state for a dead connection in the GATT server, SMP manager,
-            L2CAP channel manager, outbound data queues
+            L2CAP channel manager, outbound data queues (ACL, LE ACL and ISO)
+  links     procedures on links that ride on the ACL connection (1-2 CIS over an LE ACL: establishment,
+            idle, ISO SDUs in flight with drain() waiters, CIS disconnect; an eSCO link over a BR/EDR ACL:
+            establishment, idle, disconnect): after the cut host.cis_links / sco_links / bis_links and
+            device.cis_links / sco_links / bis_links are empty on every judged side (every link of the
+            scenario rode on the ACL that was closed or on the transport that was lost), after a
+            disconnection the controller keeps no CIS / SCO link attached to the dead ACL, every CisLink /
+            ScoLink object that had been established got exactly one 'disconnection' event, and
+            create_cis / accept_cis_request / CisLink.disconnect / drain waiters are finished
 """
 from __future__ import annotations
 
@@ -29,10 +37,18 @@ RULE = ('one case per (procedure, cut kind); inside it every HCI-message index o
 ASSUMPTIONS = [
     'after a transport loss the controller (beyond the lost transport) and the remote side are not judged',
     'a waiter may end with a result, an exception or a cancellation; only "still pending at T_v" is a violation',
+    'the peripheral accepts CIS requests with accept_cis_request guarded by cancel_on_disconnection of the ACL, the way '
+    'tests/device_test.py does; the SCO acceptor answers with Enhanced Accept Synchronous Connection Request',
+    'the virtual controller has no BIG support, so BIS links cannot be created; host.bis_links / device.bis_links are only '
+    'checked to be empty',
+    'a controller SCO entry with handle 0 is its placeholder for a request the host has not answered, not a link',
 ]
 MIN_EVENTS = {
-    'quick': {'cut_runs': 1800, 'cuts_before_completion': 1200, 'table_checks': 1800, 'leftover_checks': 1800},
-    'thorough': {'cut_runs': 3000, 'cuts_before_completion': 1200, 'table_checks': 3000, 'leftover_checks': 3000},
+    'quick': {'cut_runs': 1800, 'cuts_before_completion': 1200, 'table_checks': 1800, 'leftover_checks': 1800,
+              'link_table_checks': 100, 'links_tracked': 150, 'link_disconnection_event_checks': 120, 'side_waiters': 100},
+    'thorough': {'cut_runs': 3000, 'cuts_before_completion': 1200, 'table_checks': 3000, 'leftover_checks': 3000,
+                 'link_table_checks': 100, 'links_tracked': 150, 'link_disconnection_event_checks': 120,
+                 'side_waiters': 100},
 }
 CASE_TIMEOUT = 900
 EXHAUSTIVE_NOTE = 'thorough tier: every HCI message index of every listed procedure x 4 cut kinds'
@@ -40,6 +56,9 @@ EXHAUSTIVE_NOTE = 'thorough tier: every HCI message index of every listed proced
 PROCS = ['gatt-read', 'gatt-long-read', 'gatt-write', 'gatt-discover', 'gatt-subscribe', 'gatt-indicate',
          'pair-legacy', 'pair-sc', 'coc-connect', 'coc-disconnect', 'coc-drain', 'classic-connect',
          'classic-disconnect', 'rfcomm-open', 'sdp-query', 'hci-queued-command', 'encrypt']
+# procedures on links that ride on an ACL connection: CIS (LE isochronous) and SCO/eSCO (BR/EDR synchronous)
+ISO_PROCS = ['cis-establish', 'cis-idle', 'cis-iso-stream', 'cis-disconnect', 'sco-establish', 'sco-idle', 'sco-disconnect']
+PROCS += ISO_PROCS
 CUTS = ['disc-initiator', 'disc-responder', 'lost-initiator', 'lost-responder']
 
 
@@ -62,6 +81,97 @@ def plan(tier, seed):
 
 
 # -----------------------------------------------------------------------------
+class LinkWatch:
+    """Every CisLink / ScoLink object a device ever held, with the events it was sent."""
+
+    def __init__(self, rg):
+        self.rg = rg
+        self.links = {}       # id(link) -> record
+
+    def see(self, dev, kind, link):
+        if id(link) in self.links:
+            return
+        rec = {'dev': dev, 'kind': kind, 'link': link, 'handle': link.handle, 'established': 0, 'failed': 0, 'disconnected': 0}
+        self.links[id(link)] = rec
+        if kind == 'cis':
+            if link.state.name == 'ESTABLISHED':
+                rec['established'] = 1
+            link.on('establishment', lambda *a, _r=rec: _r.__setitem__('established', _r['established'] + 1))
+            link.on('establishment_failure', lambda *a, _r=rec: _r.__setitem__('failed', _r['failed'] + 1))
+        else:
+            rec['established'] = 1
+        link.on('disconnection', lambda *a, _r=rec: _r.__setitem__('disconnected', _r['disconnected'] + 1))
+
+    def sweep(self):
+        for dev, d in enumerate(self.rg.devices):
+            for link in list(d.cis_links.values()):
+                self.see(dev, 'cis', link)
+            for link in list(d.sco_links.values()):
+                self.see(dev, 'sco', link)
+
+    def attach(self):
+        for dev, d in enumerate(self.rg.devices):
+            d.on('cis_request', lambda link, _dev=dev: self.see(_dev, 'cis', link))
+            d.on('sco_connection', lambda link, _dev=dev: self.see(_dev, 'sco', link))
+        self.rg.on_hci_logged.append(lambda rec: self.sweep())
+
+
+def sco_parameters():
+    # the parameters are workload, not oracle: bumble's own eSCO CVSD S1 table is good enough
+    from bumble import hfp
+    return hfp.ESCO_PARAMETERS[hfp.DefaultCodecParameters.ESCO_CVSD_S1].asdict()
+
+
+async def build_iso(case, proc, ctx):
+    """CIS procedures: LE ACL, the peripheral accepts every CIS request the way tests/device_test.py does
+    (accept_cis_request guarded by cancel_on_disconnection of the ACL). SCO procedures: BR/EDR ACL, the acceptor
+    answers every synchronous connection request."""
+    from bumble import hci
+    from bumble.device import CigParameters
+    rg, c0, c1 = ctx['rg'], ctx['c0'], ctx['c1']
+    d0, d1 = rg.devices
+    watch = ctx['watch'] = LinkWatch(rg)
+    watch.attach()
+    side = ctx['side_waiters'] = []      # (name, device index, task)
+    if proc.startswith('cis'):
+        def on_cis_request(link):
+            side.append(('accept_cis_request', 1, asyncio.ensure_future(
+                link.acl_connection.cancel_on_disconnection(d1.accept_cis_request(link)))))
+        d1.on('cis_request', on_cis_request)
+        ncis = 1 + (case['seed'] + PROCS.index(proc)) % 2 if proc != 'cis-disconnect' else 2
+        ctx['cig'] = CigParameters(cig_id=1, cis_parameters=[CigParameters.CisParameters(cis_id=2 + i) for i in range(ncis)],
+                                   sdu_interval_c_to_p=10000, sdu_interval_p_to_c=10000)
+        if proc != 'cis-establish':
+            handles = await vloop.vwait(d0.setup_cig(ctx['cig']))
+            ctx['cis'] = await vloop.vwait(d0.create_cis([(h, c0) for h in handles]))
+            await rg.quiesce()
+            if any(h not in rg.hosts[1].cis_links for h in [l.handle for l in d1.cis_links.values()]) or \
+                    len(rg.hosts[1].cis_links) != ncis:
+                raise RuntimeError('CIS set-up did not complete on the peripheral')
+    else:
+        def on_sco_request(connection, link_type):
+            side.append(('accept_sco', 1, asyncio.ensure_future(connection.cancel_on_disconnection(d1.send_command(
+                hci.HCI_Enhanced_Accept_Synchronous_Connection_Request_Command(bd_addr=connection.peer_address,
+                                                                               **sco_parameters()))))))
+        d1.on('sco_request', on_sco_request)
+        if proc != 'sco-establish':
+            await vloop.vwait(d0.send_command(hci.HCI_Enhanced_Setup_Synchronous_Connection_Command(
+                connection_handle=c0.handle, **sco_parameters())))
+            await rg.quiesce()
+            if len(d0.sco_links) != 1 or len(d1.sco_links) != 1:
+                raise RuntimeError('SCO set-up did not complete')
+            ctx['sco'] = list(d0.sco_links.values())[0]
+    watch.sweep()
+    if proc == 'cis-iso-stream':
+        # SDUs are already with the controller (which never completes them) and a drain() waiter exists on each end
+        for dev, links in ((0, list(d0.cis_links.values())), (1, list(d1.cis_links.values()))):
+            for link in links:
+                link.write(bytes(range(40)))
+                side.append(('cis-drain', dev, asyncio.ensure_future(link.drain())))
+        await rg.quiesce()
+
+
+# -----------------------------------------------------------------------------
 async def build(case, proc):
     """Returns ctx dict with rig, conns, op factory."""
     from bumble import l2cap, gatt
@@ -69,7 +179,7 @@ async def build(case, proc):
     from bumble.pairing import PairingConfig, PairingDelegate
     from vlib import rig as vrig
     vrig.seed_entropy(case['seed'])
-    classic = proc in ('classic-connect', 'classic-disconnect', 'rfcomm-open', 'sdp-query')
+    classic = proc in ('classic-connect', 'classic-disconnect', 'rfcomm-open', 'sdp-query') or proc.startswith('sco')
     # VERIF_SEED selects the delay schedule (0: none, 1, 2: up to that many loop turns per
     # hop) and, in the quick tier, which message indices are sampled
     rg = vrig.Rig(2, seed=case['seed'], max_delay=(case['seed'] // 1000003) % 3, classic=classic)
@@ -135,6 +245,8 @@ async def build(case, proc):
     if proc == 'encrypt':
         await vloop.vwait(c0.pair())
         await rg.quiesce()
+    if proc in ISO_PROCS:
+        await build_iso(case, proc, ctx)
     return ctx
 
 
@@ -184,6 +296,24 @@ def make_op(ctx, proc):
             res = await client.search_attributes([core.UUID('1101')], [(0, 0xFFFF)])
             await client.disconnect()
             return res
+        if proc == 'cis-establish':
+            handles = await d0.setup_cig(ctx['cig'])
+            return await d0.create_cis([(h, c0) for h in handles])
+        if proc in ('cis-idle', 'sco-idle'):
+            return None
+        if proc == 'cis-iso-stream':
+            for i in range(4):
+                for link in ctx['cis']:
+                    link.write(bytes(60 + i))
+                await asyncio.sleep(0)
+            return None
+        if proc == 'cis-disconnect':
+            return await ctx['cis'][0].disconnect()
+        if proc == 'sco-establish':
+            return await d0.send_command(hci.HCI_Enhanced_Setup_Synchronous_Connection_Command(
+                connection_handle=c0.handle, **sco_parameters()))
+        if proc == 'sco-disconnect':
+            return await ctx['sco'].disconnect()
         if proc == 'hci-queued-command':
             a = d0.host.send_command(hci.HCI_Read_BD_ADDR_Command())
             b = d0.host.send_command(hci.HCI_LE_Rand_Command())
@@ -227,7 +357,7 @@ def dead_handle_leftovers(rg, dev, dead_handles, dead_conns):
         h = key[0] if isinstance(key, tuple) else None
         if h is None or h in dead_handles:
             out.append(('l2cap.le_coc_requests', f'pending request {key}'))
-    for qn in ('acl_packet_queue', 'le_acl_packet_queue'):
+    for qn in ('acl_packet_queue', 'le_acl_packet_queue', 'iso_packet_queue'):
         q = getattr(d.host, qn, None)
         if q is not None:
             for h in getattr(q, '_connection_state', {}):
@@ -240,6 +370,105 @@ def dead_handle_leftovers(rg, dev, dead_handles, dead_conns):
     return out
 
 
+def link_snapshot(rg, dev):
+    host, device, ctl = rg.hosts[dev], rg.devices[dev], rg.controllers[dev]
+    snap = {}
+    for kind in ('cis', 'sco', 'bis'):
+        snap[f'host.{kind}'] = set(getattr(host, f'{kind}_links'))
+        snap[f'device.{kind}'] = set(getattr(device, f'{kind}_links'))
+    snap['controller.cis'] = {h for h, l in list(ctl.central_cis_links.items()) + list(ctl.peripheral_cis_links.items())
+                              if l.acl_connection is not None}
+    snap['controller.sco'] = {l.handle for l in ctl.sco_links.values() if l.handle}
+    return snap
+
+
+def judge_links(r, ctx, proc, cut, cut_dev, waiter_dev, sides, cut_at):
+    """Every CIS / SCO link of these scenarios rides on the one ACL connection that was closed (or on the transport
+    that was lost), so at quiescence after the cut: no such link in host.*_links / device.*_links (nor, for a
+    disconnection, in the controller); every link object that had been established got exactly one 'disconnection'
+    event; the waiters that existed at the cut (accept_cis_request, drain) are finished."""
+    rg, watch = ctx['rg'], ctx['watch']
+    watch.sweep()
+    lost = cut.startswith('lost')
+    klass = 'transport-loss' if lost else 'acl-disconnect'
+    where = f'({proc}, {cut} at message {cut_at})'
+    handles = {0: set(), 1: set()}
+    for rec in watch.links.values():
+        handles[rec['dev']].add(rec['handle'])
+    r.ev('link_table_checks')
+
+    def when(dev, table, entries):
+        # a link that was not in the table when the ACL went away (transport: was lost) came into being afterwards:
+        # another mechanism than a link that was not removed
+        snap = ctx['snaps'].get(dev)
+        if snap is None:
+            return '/connection-object-not-told'
+        return '/appeared-after-acl-gone' if not (set(entries) & snap[table]) else ''
+
+    for dev in sides:
+        host, device, ctl = rg.hosts[dev], rg.devices[dev], rg.controllers[dev]
+        for kind in ('cis', 'sco', 'bis'):
+            hh = sorted(getattr(host, f'{kind}_links'))
+            dl = getattr(device, f'{kind}_links')
+            dd = {h: getattr(getattr(l, 'state', None), 'name', 'present') for h, l in dl.items()}
+            r.ev('oracle_evals', 2)
+            if hh:
+                r.bad(f'tables/{kind}-links-after-{klass}/host' + when(dev, f'host.{kind}', hh),
+                      f'dev{dev}: host.{kind}_links={hh} (device.{kind}_links={dd}, host.connections='
+                      f'{sorted(host.connections)}) {where}')
+            if dd:
+                r.bad(f'tables/{kind}-links-after-{klass}/device' + ('/pending' if set(dd.values()) == {'PENDING'} else '')
+                      + when(dev, f'device.{kind}', dd),
+                      f'dev{dev}: device.{kind}_links={dd} (host.{kind}_links={hh}, device.connections='
+                      f'{sorted(device.connections)}) {where}')
+        if not lost:
+            r.ev('oracle_evals', 2)
+            acl = {c.handle for c in list(ctl.le_connections.values()) + list(ctl.classic_connections.values())}
+            stale = sorted(h for h, l in list(ctl.central_cis_links.items()) + list(ctl.peripheral_cis_links.items())
+                           if l.acl_connection is not None and l.acl_connection.handle not in acl)
+            if stale:
+                r.bad('tables/cis-links-after-acl-disconnect/controller' + when(dev, 'controller.cis', stale),
+                      f'dev{dev}: controller CIS links {stale} still attached to an ACL connection that is gone '
+                      f'(controller ACL handles {sorted(acl)}) {where}')
+            # (handle 0 is the controller's placeholder for a request its host has not answered, not a link)
+            if [l for l in ctl.sco_links.values() if l.handle]:
+                r.bad('tables/sco-links-after-acl-disconnect/controller'
+                      + when(dev, 'controller.sco', [l.handle for l in ctl.sco_links.values() if l.handle]),
+                      f'dev{dev}: controller.sco_links={[l.handle for l in ctl.sco_links.values()]} with ACL handles '
+                      f'{sorted(acl)} {where}')
+    for rec in watch.links.values():
+        if rec['dev'] not in sides:
+            continue
+        r.ev('links_tracked')
+        r.ev(f'links_tracked_{rec["kind"]}')
+        r.ev('oracle_evals')
+        if rec['established']:
+            r.ev('link_disconnection_event_checks')
+            if rec['disconnected'] != 1:
+                r.bad(f'events/{rec["kind"]}-disconnection/{"none" if rec["disconnected"] == 0 else "repeated"}/{klass}',
+                      f'dev{rec["dev"]}: the {rec["kind"].upper()} link object with handle {rec["handle"]:#x} was established '
+                      f'and its link is gone, it got {rec["disconnected"]} disconnection events {where}')
+        else:
+            r.ev('links_never_established')
+            if rec['disconnected'] > 1 or rec['failed'] > 1:
+                r.bad(f'events/{rec["kind"]}-pending-link/repeated/{klass}',
+                      f'dev{rec["dev"]}: pending link {rec["handle"]:#x} got {rec["disconnected"]} disconnection and '
+                      f'{rec["failed"]} establishment_failure events {where}')
+    for name, dev, task in ctx.get('side_waiters', []):
+        r.ev('side_waiters')
+        r.ev('oracle_evals')
+        if task.done():
+            if not task.cancelled():
+                task.exception()
+            continue
+        task.cancel()
+        if dev not in sides:
+            r.ev('waiter_not_judged_peer_transport_lost')
+        else:
+            r.bad(f'waiter/hang/{name}/{cut}', f'dev{dev}: {name} started before the cut is still pending {where}')
+    return handles
+
+
 async def scenario(case, r, proc, cut, cut_at):
     ctx = await build(case, proc)
     rg, c0, c1 = ctx['rg'], ctx['c0'], ctx['c1']
@@ -249,7 +478,14 @@ async def scenario(case, r, proc, cut, cut_at):
     cut_dev = 0 if cut.endswith('initiator') else 1
     finished = []
 
+    snaps = ctx['snaps'] = {}
+    if 'watch' in ctx:
+        for _dev, _conn in ((0, c0), (1, c1)):
+            _conn.on('disconnection', lambda *a, _d=_dev: snaps.setdefault(_d, link_snapshot(rg, _d)))
+
     def do_cut():
+        if cut.startswith('lost') and 'watch' in ctx:
+            snaps.setdefault(cut_dev, link_snapshot(rg, cut_dev))
         if cut.startswith('disc'):
             conn = c0 if cut_dev == 0 else c1
 
@@ -338,11 +574,15 @@ async def scenario(case, r, proc, cut, cut_at):
                                                 f'({proc}, cut at {cut_at})')
             if hh or dh or ch:
                 r.bad(f'tables/connection-survived/{cut}', f'dev{dev} still has connections {sorted(hh | dh | ch)}')
+    # ---- links riding on the connection (CIS, SCO) ----------------------------------
+    iso_handles = {0: set(), 1: set()}
+    if 'watch' in ctx:
+        iso_handles = judge_links(r, ctx, proc, cut, cut_dev, waiter_dev, sides, cut_at)
     # ---- leftovers ---------------------------------------------------------------
     r.ev('leftover_checks')
     for dev in sides:
         conn = c0 if dev == 0 else c1
-        left = dead_handle_leftovers(rg, dev, {conn.handle}, {conn})
+        left = dead_handle_leftovers(rg, dev, {conn.handle} | iso_handles[dev], {conn})
         r.ev('oracle_evals')
         for sub, what in left:
             r.bad(f'leftover/{sub}/{"transport-loss" if cut.startswith("lost") else "disconnect"}',
@@ -442,11 +682,14 @@ def run_case(case, r: R):
     r.sample = {'procedure': proc, 'cut': cut, 'messages_in_dry_run': n, 'cut_points': pts}
 
 
-LEVEL_TEXT = ('Fault enumeration: for 17 procedures x 4 cut kinds the link is dropped or the HCI transport lost at every '
+LEVEL_TEXT = ('Fault enumeration: for 24 procedures (17 on the ACL connection, 4 on CIS links and 3 on an eSCO link riding '
+              'on it) x 4 cut kinds the link is dropped or the HCI transport lost at every '
               'HCI-message index of the procedure (thorough; up to 150 indices per pair in quick, which is every index for all but the longest procedures), each on a '
               'fresh rig; afterwards the waiter must have ended within 300 virtual seconds, host/device/controller '
               'connection tables must agree and no per-connection state of the dead connection may remain in GATT '
-              'server, SMP, L2CAP or the outbound queues.')
+              'server, SMP, L2CAP or the outbound queues (ACL, LE ACL, ISO); no CIS / SCO / BIS link may remain in the '
+              'host, device or controller tables, and every established CisLink / ScoLink object must have got exactly one '
+              'disconnection event.')
 LEVEL_NOTE = ('Trusted: rig taps, the leftover inspector in checks/c16.py (reads the per-connection tables by name), '
               'virtual-time loop. Cuts land at HCI-message granularity, not at arbitrary instructions.')
 TECHNIQUE = 'runtime monitoring: fault injection at every message boundary + state-table invariants at quiescence'
